@@ -179,6 +179,13 @@ func c12Commands(thorough bool) []c12Cmd {
 		{"write-large", []string{"write", "--track", "2"}, strings.Repeat(c12Doc1, 40)},
 		{"write-conv-large", []string{"write", "conv", "-c", "cmt"}, strings.Repeat(c12Doc1, 40)},
 	}
+	// what a command prints about itself is output too: same arguments, same bytes
+	for _, path := range [][]string{{}, {"text"}, {"text", "parse"}, {"text", "conv"}, {"text", "conv", "syllable"}, {"text", "conv", "degree"},
+		{"write"}, {"write", "event"}, {"write", "parse"}, {"write", "conv"}, {"write", "play"}, {"info"}, {"info", "key"}, {"info", "key", "list"},
+		{"info", "key", "describe"}, {"info", "key", "conv"}, {"info", "attr"}, {"info", "attr", "list"}, {"info", "attr", "describe"},
+		{"info", "chord"}, {"info", "chord", "list"}, {"info", "chord", "describe"}, {"gen"}, {"gen", "attr"}, {"midi"}} {
+		cs = append(cs, c12Cmd{"help", append(append([]string{}, path...), "--help"), ""})
+	}
 	keys := []string{"C", "Ebm", "F#", "Cb", "G#m", "Db"}
 	if thorough {
 		keys = []string{"C", "G", "D", "A", "E", "B", "F#", "C#", "F", "Bb", "Eb", "Ab", "Db", "Gb", "Cb", "Am", "Em", "Bm", "F#m", "C#m", "G#m", "D#m", "Dm", "Gm", "Cm", "Fm", "Bbm", "Ebm"}
@@ -922,6 +929,9 @@ func runC12(e *Env) {
 	// ---- (3) I/O paths
 	var ios []c12IOCase
 	for _, c := range cmds {
+		if c.Name == "help" {
+			continue // a help text is not a result: it goes to stdout whatever -o says
+		}
 		if c.Name == "info-key-conv" && !(strings.Contains(c12Key(c), "--key E ") || strings.Contains(c12Key(c), "--key C ")) {
 			continue
 		}
